@@ -790,6 +790,13 @@ async fn run(_tier: Tier) {
     // Servers (real code).
     let mut dcfg = dgram::Config::new();
     dcfg.set_max_response_size(max_response_size);
+    // Back-pressure on the datagram socket: sends that stall for less than
+    // the write timeout must still go out; longer ones may be given up.
+    let dg_write_timeout_ms = *sim::pick("cfg.dgram_write_timeout", &[5000u64, 200, 1000]);
+    dcfg.set_write_timeout(Duration::from_millis(dg_write_timeout_ms));
+    if sim::chance("cfg.dgram_send_stalls", 1, 3) {
+        server_sock.stall_sends(150, vec![dg_write_timeout_ms / 4, dg_write_timeout_ms / 2 + 1, dg_write_timeout_ms * 2]);
+    }
     let mut ccfg = ConnectionConfig::new();
     ccfg.set_max_queued_responses(knobs.max_queued);
     ccfg.set_response_write_timeout(Duration::from_millis(knobs.write_timeout_ms));
@@ -838,6 +845,7 @@ async fn run(_tier: Tier) {
                 let led3 = led.clone();
                 let mut ncfg = dgram::Config::new();
                 ncfg.set_max_response_size(new_limit);
+                ncfg.set_write_timeout(Duration::from_millis(dg_write_timeout_ms));
                 // (A local task: the ledger is not Send.)
                 let _ = &led3;
                 let limits = dgram_limit_log.clone();
@@ -854,7 +862,12 @@ async fn run(_tier: Tier) {
         }};
     }
     let _servers = if use_cookies {
-        let svc = CookiesMiddlewareSvc::<Vec<u8>, _, ()>::new(SimService, [7u8; 16]);
+        let mut svc = CookiesMiddlewareSvc::<Vec<u8>, _, ()>::new(SimService, [7u8; 16]);
+        if sim::chance("cfg.cookie_deny_list", 1, 3) {
+            // The first UDP client must present cookies.
+            svc = svc.with_denied_ips(vec![addr(10, 5000).ip()]);
+            sim::stat("probe.cookie_deny_list");
+        }
         let svc = EdnsMiddlewareSvc::new(svc);
         start!(MandatoryMiddlewareSvc::<Vec<u8>, _, ()>::new(svc))
     } else {
@@ -910,6 +923,16 @@ async fn run(_tier: Tier) {
         return;
     }
     led.borrow_mut().dgram_limits = dgram_limit_log.lock().unwrap().clone();
+    // A response whose send was held up beyond the write timeout may be
+    // given up by the server.
+    for (dest, id, ms) in server_sock.stalled_sends() {
+        if ms >= dg_write_timeout_ms {
+            let mut l = led.borrow_mut();
+            for s in l.sent.iter_mut().filter(|s| s.udp && s.id == id && addr(10 + s.client as u8, 5000) == dest) {
+                s.excused.get_or_insert("send-stalled-beyond-write-timeout");
+            }
+        }
+    }
     check(&led, max_response_size, &junk.borrow());
 }
 
@@ -978,8 +1001,11 @@ fn check(led: &Led, max_response_size: Option<u16>, junk: &[Vec<u8>]) {
         };
         let s = &l.sent[idx];
         let want_q = format!("{}.svc", s.ask.label());
-        let q_ok = v.questions.len() == 1 && v.questions[0].0.eq_ignore_ascii_case(&want_q) && v.questions[0].1 == Rtype::TXT;
-        if !q_ok && l.junk_conns.contains(&(*client, *conn)) {
+        // (A header-only error reply - what the cookies middleware sends to a
+        // denied or malformed request - needs only the ID, as for clients.)
+        let header_only_error = v.questions.is_empty() && v.recs.is_empty() && v.rcode != Rcode::NOERROR;
+        let q_ok = header_only_error || (v.questions.len() == 1 && v.questions[0].0.eq_ignore_ascii_case(&want_q) && v.questions[0].1 == Rtype::TXT);
+        if (!q_ok || header_only_error) && l.junk_conns.contains(&(*client, *conn)) {
             // The answer to whatever the server made of this peer's own
             // misframed octets; its id coincides with a request's by chance.
             sim::stat("probe.reply_to_misframed_input_with_colliding_id");
@@ -1054,7 +1080,15 @@ fn check(led: &Led, max_response_size: Option<u16>, junk: &[Vec<u8>]) {
     // Exactly once.
     for (i, s) in l.sent.iter().enumerate() {
         let got = per_req.get(&i).map(|v| v.len()).unwrap_or(0) as u32;
-        let want = s.ask.produces();
+        // A middleware may answer in the service's place (BADCOOKIE, the
+        // cookie deny list, FORMERR): then that one error reply is the
+        // response, whatever the service would have produced.
+        let short_circuited = got == 1
+            && per_req.get(&i).is_some_and(|v| {
+                dns::view(v[0]).is_some_and(|x| x.recs.iter().all(|r| r.section != 1) && x.rcode != Rcode::NOERROR)
+            })
+            && (s.ask.e == 4 || s.ask.m > 1 || s.ask.n > 0);
+        let want = if short_circuited { 1 } else { s.ask.produces() };
         if got > want {
             if sim::violation(P, "exactly-once", if s.udp { "duplicate-response/udp" } else { "duplicate-response/stream" }, format!("request k={} ({:?}) produced {} responses at the client, the service produced {}", s.ask.k, s.ask, got, want)) {
                 return;
